@@ -68,7 +68,7 @@ Proof.
     try (inversion Hc as [[H1 H2]]; len_contra H1).
   - (* pipe *) inversion Hc as [[H1 H2]]. subst. apply app_eq_nil in H1. destruct H1; subst.
     destruct (IHa _ _ _ _ Ec) as [E1 ->]. destruct (IHb _ _ _ _ Ec0) as [E2 ->]. simpl. rewrite E1, E2. auto.
-  - (* if *) destruct l0 as [|[] [|]]; destruct l1 as [|[] [|]]; destruct l; len_contra' Hc.
+  - (* if *) destruct (is_const1 l0), (is_const1 l1); destruct l; len_contra' Hc.
   - (* try *) destruct h; simpl in *; dcomp; inversion Hc as [[H1 H2]]; len_contra H1.
   - (* array *) destruct (array_fold q); inversion Hc as [[H1 H2]]; len_contra H1.
   - (* foreach *) destruct e; simpl in *; dcomp; inversion Hc as [[H1 H2]]; len_contra H1.
@@ -92,7 +92,7 @@ Proof.
       rewrite (emptycode_den _ E2). reflexivity.
   - (* iter *) inversion Hc as [[H1 H2]]. destruct (app_single _ _ _ H1) as [[_ H]|[_ H]]; discriminate.
   - (* index *) inversion Hc as [[H1 H2]]. destruct (app_single _ _ _ H1) as [[_ H]|[_ H]]; discriminate.
-  - (* if *) destruct l0 as [|[] [|]]; destruct l1 as [|[] [|]]; destruct l; len_contra' Hc.
+  - (* if *) destruct (is_const1 l0), (is_const1 l1); destruct l; len_contra' Hc.
   - (* try *) destruct h; simpl in *; dcomp; len_contra' Hc.
   - (* array *) destruct (array_fold q) as [cs|] eqn:Ef; [|len_contra' Hc].
     injection Hc as Hk Hn. subst. assert (Ha : acl q = Some cs) by (destruct q; simpl in Ef; auto; discriminate).
